@@ -566,6 +566,17 @@ func deriveTripCount(loop *Loop) {
 		return
 	}
 
+	// The closed forms below are only valid when the variable moves TOWARDS the limit:
+	// an up-counting test needs a positive step, a down-counting test a negative one.
+	// With the step's sign unknown (or wrong) the loop either never runs or never ends.
+	if !isNEQ {
+		stepSign := iv.Step.EvaluateAt(nil, nil)
+		if stepSign == nil || (isUpCounting && stepSign.Sign() <= 0) || (!isUpCounting && stepSign.Sign() >= 0) {
+			loop.TripCount = &SCEVUnknown{Value: nil}
+			return
+		}
+	}
+
 	zero := &SCEVConstant{Value: big.NewInt(0)}
 
 	// Verify Direction for Safety
